@@ -150,8 +150,8 @@ SUMMARIES: dict[str, Summary] = {
     "logging.Logger.error": Summary(NONE, "as debug"),
     "logging.Logger.exception": Summary(NONE, "as debug"),
     "json.loads": Summary(
-        ["json.decoder.JSONDecodeError", RE_],
-        "json/decoder.py: JSONDecodeError(ValueError); deep nesting -> RecursionError (reproduced with 100000 x '[')",
+        ["json.decoder.JSONDecodeError", RE_, VE],
+        "json/decoder.py: JSONDecodeError(ValueError); deep nesting -> RecursionError (reproduced with 100000 x '['); an integer literal beyond the 4300-digit conversion limit -> plain ValueError",
         taints_result=True,
     ),
     "json.dumps": Summary(NONE, "dict of marshmallow-dumped primitives with int/str keys; sort_keys over int keys only (A3)"),
@@ -292,8 +292,26 @@ SUMMARIES.update(
         "copy.deepcopy": Summary(NONE, "deep copy of repo objects"),
         "tempfile.mkstemp": Summary([OSE], "file creation"),
         "builtins.open": Summary([OSE], "file open"),
+        "builtins.vars": Summary([TE], "vars(obj) without __dict__"),
+        "builtins.getattr": Summary([AE], "getattr without default"),
+        "builtins.setattr": Summary(NONE, "plain objects"),
+        "asyncio.streams.StreamReader.readexactly": Summary([INCOMPLETE, OSE, VE], "IncompleteReadError at EOF, ValueError for a negative count, transport errors"),
+        "asyncio.streams.StreamReader.readline": Summary([VE, OSE], "ValueError when the limit is exceeded"),
+        "asyncio.streams.StreamReader.at_eof": Summary(NONE, "total"),
     }
 )
+
+# re-exported names of the same class
+ALIASES = {
+    "marshmallow.Schema": "marshmallow.schema.Schema",
+    "marshmallow.ValidationError": "marshmallow.exceptions.ValidationError",
+    "marshmallow.fields.Integer": "marshmallow.fields.Int",
+    "marshmallow.fields.String": "marshmallow.fields.Str",
+    "marshmallow.fields.Boolean": "marshmallow.fields.Bool",
+    "asyncio.Queue": "asyncio.queues.Queue",
+    "asyncio.StreamReader": "asyncio.streams.StreamReader",
+    "asyncio.StreamWriter": "asyncio.streams.StreamWriter",
+}
 
 # BaseException-only classes are outside the escape analysis
 BASE_ONLY = {
